@@ -480,7 +480,16 @@ impl Stage for NodeTier {
         tier.pick(400, 6000)
     }
     fn strategy(&self, _t: Tier) -> BoxedStrategy<NodeCase> {
-        (any::<bool>(), any::<bool>(), any::<bool>(), vec((any::<u8>(), prop_oneof![Just(0u16), 0u16..40, 0u16..3000], input()), 10..120))
+        // mutated datagrams, plain valid ones, and valid ones with one field blown up to the full
+        // datagram size (still well-formed: they reach the handlers)
+        let heavy = (kmsg(), 0u8..4, prop_oneof![1 => 33u16..600, 3 => 600u16..1480])
+            .prop_map(|(m, which, len)| Input { base: Base::Msg(m), muts: vec![Mut::Inflate { which, len }] });
+        let dgram = prop_oneof![
+            5 => input(),
+            2 => kmsg().prop_map(|m| Input { base: Base::Msg(m), muts: vec![] }),
+            3 => heavy,
+        ];
+        (any::<bool>(), any::<bool>(), any::<bool>(), vec((any::<u8>(), prop_oneof![Just(0u16), 0u16..40, 0u16..3000], dgram), 10..120))
             .prop_map(|(v6, with_contacts, search_during, dgrams)| NodeCase { v6, with_contacts, search_during, dgrams })
             .boxed()
     }
@@ -551,7 +560,7 @@ impl Stage for NodeTier {
         })
     }
     fn rule(&self) -> String {
-        "sequences of 10..120 datagrams from the decode tier's generator (valid and mutated), from strangers' and contacts' addresses of both families, gaps 0..3 s, injected into a live serving node that is idle or bootstrapping against 5 contacts (one silent) and optionally has a search running. Oracle afterwards: a ping gets exactly one correct reply; get_state (is_running), load_contacts, local_addr complete within 10 virtual seconds; a new search stream ends. Every case non-trivial".into()
+        "sequences of 10..120 datagrams: 50 % from the decode tier's generator (mutated), 20 % plain valid messages, 30 % valid messages with the transaction id / token / error text / an unknown value blown up to as much as the datagram allows, from strangers' and contacts' addresses of both families, gaps 0..3 s, injected into a live serving node that is idle or bootstrapping against 5 contacts (one silent) and optionally has a search running. Oracle afterwards: a ping gets exactly one correct reply; get_state (is_running), load_contacts, local_addr complete within 10 virtual seconds; a new search stream ends. Every case non-trivial".into()
     }
     fn sample(&self, c: &NodeCase) -> serde_json::Value {
         serde_json::json!({"v6": c.v6, "with_contacts": c.with_contacts, "n": c.dgrams.len(), "first": c.dgrams.iter().take(3).map(|d| super::c13::show(&build(&d.2)).chars().take(80).collect::<String>()).collect::<Vec<_>>()})
